@@ -67,6 +67,7 @@ fn main() {
     }
     // generic replay: a replay file written by Report::finish names the tier, the seed and the
     // case (parallel loop number, index); checks with a replay routine of their own use the rest
+    let mut generic_only = false;
     if let Some(p) = &replay {
         if let Ok(txt) = std::fs::read_to_string(p) {
             if let Ok(v) = serde_json::from_str::<serde_json::Value>(&txt) {
@@ -82,6 +83,9 @@ fn main() {
                 if let (Some(ph), Some(ix)) = (c["phase"].as_u64(), c["index"].as_u64()) {
                     pool::set_replay_only(ph, ix);
                     println!("replaying case {ix} of parallel loop {ph} (seed {seed}, tier {})", tier.name());
+                    // findings of the scenario-independent monitors and of the stuck-step monitor
+                    // carry nothing but the case: the check runs as usual, restricted to it
+                    generic_only = v["replay"]["monitor"].as_str() == Some("universal") || v["replay"]["stuck_step"].as_bool() == Some(true);
                 }
             }
         }
@@ -92,7 +96,7 @@ fn main() {
         prop: prop.clone(),
         tier,
         seed,
-        replay,
+        replay: if generic_only { None } else { replay },
         hooks: cfg!(feature = "hooks"),
         build: option_env!("VERIF_BUILD").unwrap_or("verif").to_string(),
         scale,
